@@ -104,6 +104,35 @@ def surface(d):
     return sorted(out)
 
 
+def crate_features():
+    """cargo features the crate under test declares (the generated probes enable all of them except `default`)"""
+    import re
+    txt = open(os.path.join(fw.REPO, "Cargo.toml")).read()
+    m = re.search(r"^\[features\]\s*$(.*?)(^\[|\Z)", txt, re.M | re.S)
+    if not m:
+        return []
+    return [n for n in re.findall(r"^([A-Za-z0-9_-]+)\s*=", m.group(1), re.M) if n != "default"]
+
+
+def run_probe(workdir, name, main_rs, extra_deps="", hooks=False, features=None, timeout=1800):
+    """Writes a one-file binary crate depending on the crate under test, builds and runs it.
+    -> (compiled: bool, stdout+stderr)"""
+    cdir = os.path.join(workdir, name)
+    os.makedirs(os.path.join(cdir, "src"), exist_ok=True)
+    feats = features if features is not None else crate_features()
+    with open(os.path.join(cdir, "Cargo.toml.in"), "w") as fh:
+        fh.write('[package]\nname = "hpke-verif-probe-%s"\nversion = "0.0.0"\nedition = "2021"\npublish = false\n\n[dependencies]\n'
+                 'hpke = { path = "@REPO@", default-features = false, features = [%s] }\n%s\n[workspace]\n' % (name, ", ".join('"%s"' % f for f in feats), extra_deps))
+    with open(os.path.join(cdir, "src", "main.rs"), "w") as fh:
+        fh.write(main_rs)
+    fw.prepare_crate(cdir)
+    e = dict(fw.BASE_ENV)
+    e["RUSTFLAGS"] = ("--cfg %s" % fw.GUARD) if hooks else ""
+    p = subprocess.run(["cargo", "run", "--offline", "--target-dir", os.path.join(fw.VERIF, "target", "probe-hooks" if hooks else "probe")], cwd=cdir, env=e,
+                       stdout=subprocess.PIPE, stderr=subprocess.STDOUT, text=True, timeout=timeout)
+    return ("PROBE_STARTED" in p.stdout), p.stdout
+
+
 PRIMS = {"u8", "u16", "u32", "u64", "u128", "usize", "i8", "i16", "i32", "i64", "i128", "isize", "bool"}
 
 
